@@ -31,6 +31,20 @@ def _add(I, obj, args, kwargs):
     return None
 
 
+def _setitem(I, obj, args, kwargs):
+    return _add(I, obj, [(args[0], args[1])], {})
+
+
+def _len(I, obj, args, kwargs):
+    import z3
+    from .values import SInt
+    n = I.ctx.fresh_int("acc_len")
+    I.ctx.assume(n >= 0)
+    return SInt(n)
+
+
 def install(reg):
+    reg.theory_methods[("acc", "__len__")] = _len
     reg.theory_methods[("acc", "append")] = _add
     reg.theory_methods[("acc", "add")] = _add
+    reg.theory_methods[("acc", "__setitem__")] = _setitem
